@@ -176,7 +176,7 @@ def run(ctx):
     dag = LEAF_DAG + [(G.ORD, '0' * 1023, (0, 1, 2, 3)), (G.ORD, '10', (0,))]
     cells = G.lib_build(dag)
     fills = [0, 1, 500] + list(range(1015, 1024))
-    for t in range(ctx.n(40, 400)):
+    for t in range(ctx.n(100, 400)):
         for fb in fills:
             for fr in range(5):
                 history(ctx, dag, cells, fb, fr, t)
@@ -188,7 +188,7 @@ def run(ctx):
             overread(ctx, rem, 0, req, 'lby')
         for kind in ('bit', 'lr', 'lmr', 'lvu', 'lc', 'la'):
             overread(ctx, rem, rng.randrange(0, 2), 0, kind)
-    for _ in range(ctx.n(300, 3000)):
+    for _ in range(ctx.n(1000, 3000)):
         rem = rng.randrange(0, 1024)
         overread(ctx, rem, rng.randrange(0, 5), rng.choice([rem, rem + 1, rem - 1 if rem else 0, rng.randrange(0, 1100)]), rng.choice(['lu', 'li', 'lb', 'sk']))
     # plain-bitarray cells: slices must be bounds-checked too (F3b)
